@@ -96,6 +96,10 @@ class FFCXBackendSymbols:
         # Table for chunk of custom quadrature points (physical coordinates).
         self.custom_points_table = L.Symbol("points_chunk", dtype=L.DataType.REAL)
 
+        # Domains are numbered in order of first use within the kernel, so that
+        # symbol names do not depend on the process-global UFL domain ids.
+        self.domain_numbering: dict[ufl.AbstractDomain, int] = {}
+
     def entity(self, entity_type: entity_types, restriction):
         """Entity index for lookup in element tables."""
         if entity_type == "cell":
@@ -138,10 +142,9 @@ class FFCXBackendSymbols:
 
     def J_component(self, mt):
         """Jacobian component."""
-        return L.Symbol(
-            format_mt_name(f"J{ufl.domain.extract_unique_domain(mt.expr).ufl_id()}", mt),
-            dtype=L.DataType.REAL,
-        )
+        domain = ufl.domain.extract_unique_domain(mt.expr)
+        number = self.domain_numbering.setdefault(domain, len(self.domain_numbering))
+        return L.Symbol(format_mt_name(f"J{number}", mt), dtype=L.DataType.REAL)
 
     def domain_dof_access(self, dof, component, gdim, num_scalar_dofs, restriction):
         """Domain DOF access."""
